@@ -131,6 +131,7 @@ class World:
         self.distinct = set()
         self.seen_values = set()
         self.fresh_vecs = []  # (first variable name, z3 term of the whole vector, length)
+        self.public = []  # publicly known byte strings: outputs of the ideal primitives / RNG are assumed to differ from them (unguessable)
         if c.symbolic:
             c.e.at_path_end.append(self._no_collisions_in_model)
 
@@ -145,6 +146,8 @@ class World:
                 i += 1
             return out[:n]
         v = self.c.bytes(f"{tag}{self.n}", n)
+        if self.public:
+            self._check_unguessable(v, n)
         if n >= 12 and self.c.symbolic:
             items = V.seq_items(v)
             self.origin[id(items[0])] = (self.n, items)
@@ -156,6 +159,25 @@ class World:
                 raise NativeAssumeFailed("concrete values violate the no-collision assumption of the ideal primitives")
             self.seen_values.add(bytes(v))
         return v
+
+    def declare_public(self, value):
+        """a byte string anybody can write down (constants, values readable from a blob): no output of the ideal primitives equals it"""
+        value = bytes(value)
+        self.public.append(value)
+        for name, items, n in self.fresh_vecs:
+            if n == len(value):
+                self.c.assume(V.SymBytes(items) != value)
+
+    def _check_unguessable(self, v, n):
+        for p in self.public:
+            if len(p) != n:
+                continue
+            if self.c.symbolic:
+                self.c.assume(V.SymBytes(V.seq_items(v)) != p)
+            elif bytes(v) == p:
+                from vlib.api import NativeAssumeFailed
+
+                raise NativeAssumeFailed("a fresh output equals a public constant (outside the unguessability assumption)")
 
     def _no_collisions_in_model(self, eng):
         """the path's model must respect the no-collision assumption: fresh vectors the path condition talks about are pairwise distinct
